@@ -87,6 +87,48 @@ class Size(tuple):
         return n
 
 
+class Q(Fraction):
+    """exact rational that stays exact when QuCumber's numpy code combines it with Python complex literals
+    (`re + 1j * im`): Fraction * 1j would silently become a float complex"""
+
+    def _c(self, o):
+        return S.SymC(Fraction(o.real), Fraction(o.imag))
+
+    def __mul__(self, o):
+        if isinstance(o, complex):
+            return S.SymC(Fraction(self)) * self._c(o)
+        return Fraction.__mul__(self, o)
+
+    def __rmul__(self, o):
+        if isinstance(o, complex):
+            return self._c(o) * S.SymC(Fraction(self))
+        return Fraction.__rmul__(self, o)
+
+    def __add__(self, o):
+        if isinstance(o, complex):
+            return S.SymC(Fraction(self)) + self._c(o)
+        return Fraction.__add__(self, o)
+
+    def __radd__(self, o):
+        if isinstance(o, complex):
+            return self._c(o) + S.SymC(Fraction(self))
+        return Fraction.__radd__(self, o)
+
+    def __sub__(self, o):
+        if isinstance(o, complex):
+            return S.SymC(Fraction(self)) - self._c(o)
+        return Fraction.__sub__(self, o)
+
+    def __rsub__(self, o):
+        if isinstance(o, complex):
+            return self._c(o) - S.SymC(Fraction(self))
+        return Fraction.__rsub__(self, o)
+
+
+def _q(x):
+    return Q(x) if type(x) is Fraction else x
+
+
 class SymArray(np.ndarray):
     """what Tensor.numpy() returns for float tensors (object ndarray; .real/.imag elementwise)"""
 
@@ -244,7 +286,7 @@ class Tensor:
 
     def numpy(self):
         if self.a.dtype == object:
-            return self.a.view(SymArray)
+            return _map1(_q, self.a).view(SymArray)
         return self.a
 
     def tolist(self):
@@ -1068,8 +1110,7 @@ def var_mean(x, dim=None, unbiased=True, correction=None):
     return Tensor(_raw=_arr(S.div(ss, n - c)), dtype=x.dtype), Tensor(_raw=_arr(m), dtype=x.dtype)
 
 
-class UndefinedValue(ArithmeticError):
-    """torch would produce NaN here (real-arithmetic model has no value)"""
+UndefinedValue = S.UndefinedValue  # torch would produce inf / NaN here (the real-arithmetic model has no value)
 
 
 def transpose(x, i, j):
